@@ -371,7 +371,8 @@ func (p *Parser) parseInjectCall(pkg *packages.Package, kessokuPackageScope *typ
 			ASTTypeExpr: fun.Index,
 		}
 		// Collect dependencies from return type expression
-		fun.Index, _ = p.collectDependencies(fun.Index, pkg.TypesInfo, imports, varPool)
+		fun.Index, _ = p.collectDependencies(fun.Index, pkg, imports, varPool)
+		build.Return.ASTTypeExpr = fun.Index
 	case *ast.IndexListExpr:
 		if len(call.Fun.(*ast.IndexListExpr).Indices) == 0 {
 			return nil, fmt.Errorf("kessoku.Inject requires at least 1 type argument")
@@ -382,7 +383,8 @@ func (p *Parser) parseInjectCall(pkg *packages.Package, kessokuPackageScope *typ
 			ASTTypeExpr: fun.Indices[0],
 		}
 		// Collect dependencies from return type expression
-		fun.Indices[0], _ = p.collectDependencies(fun.Indices[0], pkg.TypesInfo, imports, varPool)
+		fun.Indices[0], _ = p.collectDependencies(fun.Indices[0], pkg, imports, varPool)
+		build.Return.ASTTypeExpr = fun.Indices[0]
 	default:
 		return nil, fmt.Errorf("kessoku.Inject requires at least 1 type argument")
 	}
@@ -493,7 +495,7 @@ func (p *Parser) parseProviderArgument(pkg *packages.Package, kessokuPackageScop
 
 	// Collect dependencies from provider expression and get referenced imports
 	var referencedImports map[string]*Import
-	arg, referencedImports = p.collectDependencies(arg, pkg.TypesInfo, imports, varPool)
+	arg, referencedImports = p.collectDependencies(arg, pkg, imports, varPool)
 
 	// Check if this is a struct provider (even if wrapped in Async/Bind)
 	if result.IsStruct {
@@ -728,10 +730,31 @@ func (p *Parser) getVarDecl(pkg *packages.Package, obj *types.Var) ast.Expr {
 }
 
 // collectDependencies extracts package dependencies from an AST expression and returns both the modified expression and referenced imports
-func (p *Parser) collectDependencies(expr ast.Expr, typeInfo *types.Info, imports map[string]*Import, varPool *VarPool) (ast.Expr, map[string]*Import) {
+func (p *Parser) collectDependencies(expr ast.Expr, pkg *packages.Package, imports map[string]*Import, varPool *VarPool) (ast.Expr, map[string]*Import) {
+	typeInfo := pkg.TypesInfo
 	referencedImports := make(map[string]*Import)
-	ast.Inspect(expr, func(n ast.Node) bool {
-		ident, ok := n.(*ast.Ident)
+
+	// importFor returns the import the generated file uses for pkgPath
+	importFor := func(pkgPath, baseName string) *Import {
+		imp, ok := imports[pkgPath]
+		if !ok {
+			// Register the package name to prevent shadowing
+			name := varPool.GetName(baseName)
+			imp = &Import{
+				Name:          name,
+				IsDefaultName: name == baseName,
+				IsUsed:        false, // Will be marked during code generation
+			}
+			imports[pkgPath] = imp
+		}
+		// Record reference but don't mark as used yet - will be marked during code generation
+		referencedImports[pkgPath] = imp
+
+		return imp
+	}
+
+	rewritten := astutil.Apply(expr, func(c *astutil.Cursor) bool {
+		ident, ok := c.Node().(*ast.Ident)
 		if !ok {
 			return true
 		}
@@ -744,8 +767,28 @@ func (p *Parser) collectDependencies(expr ast.Expr, typeInfo *types.Info, import
 
 		pkgName, ok := obj.(*types.PkgName)
 		if !ok {
-			slog.Debug("object is not a package name", "identifier", ident.Name, "object", obj)
-			return true
+			// An identifier made visible by a dot import is only valid in the
+			// user's file: the generated file refers to it through its package
+			if sel, isSel := c.Parent().(*ast.SelectorExpr); isSel && sel.Sel == ident {
+				return true
+			}
+
+			objPkg := obj.Pkg()
+			if objPkg == nil || objPkg == pkg.Types || obj.Parent() != objPkg.Scope() {
+				return true
+			}
+
+			imp := importFor(objPkg.Path(), objPkg.Name())
+			qualifier := ast.NewIdent(imp.Name)
+			// The expression may be visited again (a Set shared by several
+			// injectors): make the qualifier resolve like a written one
+			typeInfo.Uses[qualifier] = types.NewPkgName(token.NoPos, pkg.Types, imp.Name, objPkg)
+			c.Replace(&ast.SelectorExpr{
+				X:   qualifier,
+				Sel: ident,
+			})
+
+			return false
 		}
 
 		imported := pkgName.Imported()
@@ -755,26 +798,16 @@ func (p *Parser) collectDependencies(expr ast.Expr, typeInfo *types.Info, import
 		}
 
 		pkgPath := imported.Path()
-		if imp, ok := imports[pkgPath]; ok {
-			ident.Name = imp.Name
-			// Record reference but don't mark as used yet - will be marked during code generation
-			referencedImports[pkgPath] = imp
-		} else {
+		if _, ok := imports[pkgPath]; !ok {
 			slog.Warn("import not found for package", "package", pkgPath, "identifier", ident.Name)
-
-			// Register the package name to prevent shadowing
-			name := varPool.GetName(ident.Name)
-			newImp := &Import{
-				Name:          name,
-				IsDefaultName: name == pkgName.Name(),
-				IsUsed:        false, // Will be marked during code generation
-			}
-			imports[pkgPath] = newImp
-			referencedImports[pkgPath] = newImp
 		}
+		ident.Name = importFor(pkgPath, ident.Name).Name
 
 		return true
-	})
+	}, nil)
+	if rewrittenExpr, ok := rewritten.(ast.Expr); ok {
+		expr = rewrittenExpr
+	}
 
 	return expr, referencedImports
 }
